@@ -197,6 +197,14 @@ def _hash(ip, args, kwargs, st, node):
         return ip.call_dunder(v, '__hash__', [], st, node)
     # hash is an uninterpreted function of its argument (tuple componentwise)
     ctx = ip.ctx
+    if ctx.concrete_math:
+        def nat(x):
+            if isinstance(x, tuple):
+                return tuple(nat(y) for y in x)
+            if isinstance(x, Fraction):
+                return float(x)
+            return x
+        return SOpaque('hash')     # bit-pattern dependent: not comparable with exact real arithmetic
     ctx.trusted['hash'] += 1
 
     def enc(x):
